@@ -874,3 +874,57 @@ Proof.
     pose proof (slash_pending s e (reason_prm avs op ev pw f inf) Hpa) as K.
     destruct (slash s e (reason_prm avs op ev pw f inf)). exact K.
 Qed.
+
+(* ------------------------------------------------------------------ the basis (Amount) of every record is never touched ---- *)
+
+Lemma rec_step_amount p op event r : u_amount (rec_step p op event r) = u_amount r /\ u_id (rec_step p op event r) = u_id r.
+Proof.
+  unfold rec_step. destruct ((u_op r =? op) && negb (u_height r <? event)); [|split; reflexivity].
+  unfold slash_from_undel. destruct (u_actual r =? 0); [split; reflexivity|].
+  destruct (slash_amt p (u_amount r) >=? u_actual r); split; reflexivity.
+Qed.
+
+Lemma slash_assets_basis s e q f :
+  match slash_assets s e q f with
+  | Ok (s1, _) => map (fun r => (u_id r, u_amount r)) (s_recs s1) = map (fun r => (u_id r, u_amount r)) (s_recs s)
+  | _ => True
+  end.
+Proof.
+  unfold slash_assets.
+  destruct (op_value (v_assets e) (q_op q) (s_pools s)) as [total| |]; try exact I.
+  destruct (negb (0 <? total)); [exact I|].
+  generalize (Z.min (dec_of_int 1) (dec_quo (dec_mul (dec_of_int (q_power q)) f) total)). intros p.
+  destruct (walk_pools p (q_op q) (s_slists s) (s_pools s)) as [pools' exp].
+  destruct (q_event q <=? v_height e); [|reflexivity].
+  pose proof (walk_recs_fst p (q_op q) (q_event q) (s_recs s)) as W1.
+  destruct (walk_recs p (q_op q) (q_event q) (s_recs s)) as [recs' exu]. simpl in W1. cbn [s_recs]. subst.
+  rewrite map_map. apply map_ext. intros r. destruct (rec_step_amount p (q_op q) (q_event q) r) as [H1 H2]. rewrite H1, H2. reflexivity.
+Qed.
+
+Lemma slash_basis s e q :
+  map (fun r => (u_id r, u_amount r)) (s_recs (fst (slash s e q))) = map (fun r => (u_id r, u_amount r)) (s_recs s).
+Proof.
+  unfold slash. destruct (negb (check_param (v_height e) q)); [reflexivity|].
+  destruct (q_factor q) as [f|]; [|reflexivity].
+  pose proof (slash_assets_basis s e q f) as K.
+  destruct (slash_assets s e q f) as [[s1 ex]| |]; simpl; try reflexivity.
+  unfold store_sinfo.
+  destruct (has_sinfo _ _ _ _); [reflexivity|].
+  destruct (avs_contract e (q_avs q)); [|reflexivity].
+  destruct (negb (z =? q_contract q)); [reflexivity|].
+  destruct (q_event q >? v_height e); [reflexivity|].
+  destruct ((f <? 0) || (f >? dec_of_int 1)); [reflexivity|]. simpl. exact K.
+Qed.
+
+Lemma step_basis s e c :
+  map (fun r => (u_id r, u_amount r)) (s_recs (fst (step s e c))) = map (fun r => (u_id r, u_amount r)) (s_recs s).
+Proof.
+  destruct c as [q|op ev pw f inf|fd ev pw f inf]; simpl.
+  - apply slash_basis.
+  - destruct (v_dog_avs e) as [avs|]; [|reflexivity].
+    pose proof (slash_basis s e (reason_prm avs op ev pw f inf)) as K.
+    destruct (slash s e (reason_prm avs op ev pw f inf)). exact K.
+  - destruct fd as [op|]; [|reflexivity]. destruct (v_dog_avs e) as [avs|]; [|reflexivity].
+    pose proof (slash_basis s e (reason_prm avs op ev pw f inf)) as K.
+    destruct (slash s e (reason_prm avs op ev pw f inf)). exact K.
+Qed.
